@@ -341,4 +341,26 @@ def cases(tier, seed=0):
             return ({"F0": t.integrate("1")[J(idx)], "F1": t.integrate("x")[J(idx)], "F2": t.integrate("x**2")[J(idx)], "F3": t.integrate("x**k", k=3)[J(idx)]},
                     {"F0": ts.integrate("1"), "F1": ts.integrate("x"), "F2": ts.integrate("x**2"), "F3": ts.integrate("x**k", k=3)})
     out.append(scenario_case("truncated/R2", declare, run, idx_set(2, "quick"), dict(op="truncated integrals; batch of measures with individual limits", R=2), timeout=900))
+
+    # limits that are infinite on DIFFERENT sides for different components: [a0, inf) and (-inf, b1]
+    def declare2(b):
+        b.pos("s", (2,)); b.free("nu", (2, 1)); b.free("lb", (2,)); b.free("a", (2, 1)); b.free("bu", (2, 1))
+        b.phi_slots(5)
+
+    def run2(A, idx):
+        import jax.numpy as jnp
+        from ..phi import patched_norm
+        from gaussian_toolbox.experimental import truncated_measure as tm
+        factor, measure, pdf, conditional = gt()
+        with patched_norm():
+            lam = (1.0 / A["s"] ** 2)[:, None, None]
+            u = measure.GaussianMeasure(Lambda=lam, nu=A["nu"], ln_beta=A["lb"])
+            lo = jnp.concatenate([A["a"][:1], jnp.full((1, 1), -jnp.inf)], axis=0)
+            hi = jnp.concatenate([jnp.full((1, 1), jnp.inf), A["bu"][1:]], axis=0)
+            t = tm.TruncatedGaussianMeasure(measure=u, lower_limit=lo, upper_limit=hi)
+            ts = tm.TruncatedGaussianMeasure(measure=u.slice(J(idx)), lower_limit=lo[J(idx)], upper_limit=hi[J(idx)])
+            ks = (0, 2, 3, 4)
+            return ({"F0": t.integrate("1")[J(idx)], "F1": t.integrate("x")[J(idx)], "F2": t.integrate("x**2")[J(idx)], **{f"Fk{k}": t.integrate("x**k", k=k)[J(idx)] for k in ks}},
+                    {"F0": ts.integrate("1"), "F1": ts.integrate("x"), "F2": ts.integrate("x**2"), **{f"Fk{k}": ts.integrate("x**k", k=k) for k in ks}})
+    out.append(scenario_case("truncated-mixed-limits/R2", declare2, run2, [[0], [1], [-1, 0], [1, 1]], dict(op="truncated integrals; components with limits infinite on different sides", R=2), timeout=900))
     return out
